@@ -387,10 +387,20 @@ class Driver:
                     g = f.Graph(); g.new_node('A')
                     c = v.copy(); c.new_rule('FreshNT', g); variants.append(('extra rule', c))
                     c = v.copy(); c.start = 'OtherStart'; variants.append(('different start', c))
+                    for nt in v.nonterminals():
+                        if not v.rules(nt) and nt.arity == 0:
+                            # only the rule table differs: every label involved is already registered
+                            c = v.copy(); c.add_rule(f.HRGRule(nt, f.Graph())); variants.append(('rule for a so-far rule-less nonterminal', c))
+                            break
+                    if v.all_rules():
+                        c = v.copy(); c.add_rule(v.all_rules()[0].copy()); variants.append(('a rule listed twice', c))
             except Exception:
                 continue
             for what, c in variants:
-                if c == v or not (c != v):
+                if (c == v) != (v == c):
+                    self.V('eq-not-symmetric', f'{k} vs its variant with {what}: a == b is {v == c}, b == a is {c == v}')
+                    return
+                if c == v or v == c or not (c != v) or not (v != c):
                     self.V(f'eq-does-not-distinguish:{kind}:{what.replace(" ", "-")}', f'{k} == variant with {what}')
                     return
 
